@@ -226,6 +226,7 @@ def run_unit(u, workdir):
     cb = ['cbmc', base + '.i.gb', '--no-malloc-may-fail', '--bounds-check', '--pointer-check', '--json-ui', '--no-standard-checks',
           '--pointer-overflow-check'] if False else ['cbmc', base + '.i.gb', '--no-malloc-may-fail', '--bounds-check', '--pointer-check', '--json-ui']
     if u.get('unwind'):
+        cb += ['--object-bits', '12']   # unwound loops create more than 2^8 addressed objects
         cb += ['--unwind', str(u['unwind']), '--unwinding-assertions']
     cb += u.get('flags', [])
     res['checker_cmd'] = ' '.join(gi[:-2]) + ' ... && ' + ' '.join(cb)
